@@ -361,6 +361,9 @@ func (x *Exec) builtinExtern(st *State, key string, c *ssa.CallCommon, a []*Val,
 		r := x.D.fresh("rand", SReal)
 		x.assume(st, tAnd(tCmp(">=", r, realLitStr("0")), tCmp("<", r, realLitStr("1"))))
 		return &Val{K: VFloat, Typ: rt, F: []*Val{scalar(tFalse, nil), scalar(r, nil)}}, true, nil
+	case "time.(Duration).Nanoseconds":
+		use()
+		return intVal(T(0)), true, nil
 	case "time.(Duration).Seconds":
 		use()
 		x.usesReal = true
